@@ -81,7 +81,7 @@ theorem determine_good {N : Nat} {ss : List Stmt} (hlen : ss.length = N) (i : Na
       dsimp only
       have hnot : ¬ r > ss.length := by omega
       rw [if_neg hnot]
-      generalize (if r < i then sumSizes ss r i else sumSizes ss i r) = pr
+      generalize (if r ≤ i then sumSizes ss r i else sumSizes ss i r) = pr
       obtain ⟨mn, mx⟩ := pr
       dsimp only
       rw [hsa, hsb]
